@@ -6,6 +6,7 @@ Vocabulary (S, D: ghost snapshots of the sorted working copy taken before the sw
   P                 timedelta(seconds=pulsetime)
 """
 from datetime import timedelta
+from pyvc.specrt import *  # noqa: F401,F403
 from pyvc.api import contract, spec
 
 M = "aw_transform.flood."
